@@ -933,6 +933,11 @@ fn process_items(file: &str, items: Vec<Item>, cfg: &Cfg, rw: &mut Rewriter, out
                             new_items.push(ImplItem::Fn(f));
                         }
                         ImplItem::Type(t) => new_items.push(ImplItem::Type(t)),
+                        ImplItem::Const(mut c) => {
+                            strip_all_attrs(&mut c.attrs, &mut out.dropped);
+                            c.vis = if trait_name.is_some() && im.trait_.is_some() { Visibility::Inherited } else { parse_quote!(pub) };
+                            new_items.push(ImplItem::Const(c));
+                        }
                         other => die(&format!("{}: impl item {}", file, other.to_token_stream())),
                     }
                 }
@@ -940,6 +945,37 @@ fn process_items(file: &str, items: Vec<Item>, cfg: &Cfg, rw: &mut Rewriter, out
                 if !im.items.is_empty() {
                     out.items.push(Item::Impl(im));
                 }
+            }
+            Item::Const(mut c) => {
+                // a constant is emitted as written (attributes dropped, visibility normalised)
+                if !cfg.keep(&c.attrs) {
+                    out.dropped_items.push(format!("{}: const {} (cfg off)", file, c.ident));
+                    continue;
+                }
+                strip_all_attrs(&mut c.attrs, &mut out.dropped);
+                c.vis = parse_quote!(pub);
+                out.items.push(Item::Const(c));
+            }
+            Item::Static(mut c) => {
+                if !matches!(c.mutability, StaticMutability::None) {
+                    die(&format!("{}: static mut {}", file, c.ident));
+                }
+                if !cfg.keep(&c.attrs) {
+                    out.dropped_items.push(format!("{}: static {} (cfg off)", file, c.ident));
+                    continue;
+                }
+                strip_all_attrs(&mut c.attrs, &mut out.dropped);
+                c.vis = parse_quote!(pub);
+                out.items.push(Item::Static(c));
+            }
+            Item::Type(mut t) => {
+                if !cfg.keep(&t.attrs) {
+                    out.dropped_items.push(format!("{}: type {} (cfg off)", file, t.ident));
+                    continue;
+                }
+                strip_all_attrs(&mut t.attrs, &mut out.dropped);
+                t.vis = parse_quote!(pub);
+                out.items.push(Item::Type(t));
             }
             other => die(&format!("{}: item kind: {}", file, other.to_token_stream().to_string().chars().take(80).collect::<String>())),
         }
